@@ -102,12 +102,18 @@ func newEvent(eventType string, ts time.Time, payload interface{}) (Event, error
 	return Event{Type: eventType, TS: formatTime(ts), Data: data}, nil
 }
 
-func newShortID(existing map[string]*Task) (string, error) {
+// newShortID returns an id that is neither in use nor pruned: replay skips
+// every event that mentions a tombstoned id, so an item created under one
+// would silently never exist.
+func newShortID(existing map[string]*Task, tombstones map[string]TombstoneInfo) (string, error) {
 	const maxAttempts = 64
 	for i := 0; i < maxAttempts; i++ {
 		id, err := shortID()
 		if err != nil {
 			return "", err
+		}
+		if _, pruned := tombstones[id]; pruned {
+			continue
 		}
 		if _, exists := existing[id]; !exists {
 			return id, nil
